@@ -42,6 +42,7 @@ CONSTANTS MaxSize,     \* interval sizes 0..MaxSize
           MaxItems,    \* sparse: at most this many annotated offsets
           Addrs,       \* subset of {"none", "4096"}: interval without / with an address
           Grows,       \* bytes appended to the first interval between split and join
+          Lates,       \* BOOLEAN: model an annotation added to the last interval between split and join
           NopKinds,    \* subset of {"1", "4", "u"}: nop size used by the model's Join
           VariantSet,  \* which call variants a case is run under (harness side)
           Rotate,      \* 0: all variants of the set; k: k of them, rotating with the layout
@@ -525,33 +526,37 @@ NopBytes(kind) == CASE kind = "1" -> <<144>> [] kind = "4" -> <<31, 32, 3, 213>>
 (***************************************************************************)
 (* Call variants (harness side; see runner.py)                             *)
 (***************************************************************************)
-V(op, mod, fmt, tab, al, nop, grow) ==
-  [op |-> op, mod |-> mod, fmt |-> fmt, tab |-> tab, al |-> al, nop |-> nop, grow |-> grow]
+\* grow: bytes a rewrite appends to the first interval between split and join;
+\* late: a rewrite annotates the last interval (a table entry appears on an
+\* interval that is not the destination of the join)
+V(op, mod, fmt, tab, al, nop, grow, late) ==
+  [op |-> op, mod |-> mod, fmt |-> fmt, tab |-> tab, al |-> al, nop |-> nop, grow |-> grow, late |-> late]
 ApplyVariants ==
-  << V("apply", "x64", "elf", "default", "aux", "no", 0), V("apply", "x64", "pe", "default", "aux", "no", 0),
-     V("apply", "ia32", "pe", "default", "aux", "no", 0), V("apply", "arm64", "elf", "default", "aux", "no", 0),
-     V("apply", "mips32", "elf", "default", "aux", "no", 0) >>
+  << V("apply", "x64", "elf", "default", "aux", "no", 0, 0), V("apply", "x64", "pe", "default", "aux", "no", 0, 0),
+     V("apply", "ia32", "pe", "default", "aux", "no", 0, 0), V("apply", "arm64", "elf", "default", "aux", "no", 0, 0),
+     V("apply", "mips32", "elf", "default", "aux", "no", 0, 0) >>
 SjVariants ==
   CASE VariantSet = "geo" ->
-         << V("sj", "x64", "elf", "default", "aux", "no", 0),
-            V("sj", "none", "elf", "custom", "arg", "e4n1", 0),
-            V("sj", "arm64", "elf", "custom", "none", "no", 0) >>
+         << V("sj", "x64", "elf", "default", "aux", "no", 0, 0),
+            V("sj", "none", "elf", "custom", "arg", "e4n1", 0, 1),
+            V("sj", "arm64", "elf", "custom", "none", "no", 0, 0) >>
     [] VariantSet = "uninit" ->
-         << V("sj", "x64", "elf", "default", "aux", "no", 0),        \* ABI nop of 1 byte
-            V("sj", "arm64", "elf", "custom", "arg", "no", 0),        \* ABI nop of 4 bytes
-            V("sj", "none", "elf", "custom", "arg", "no", 0) >>       \* no nop known
+         << V("sj", "x64", "elf", "default", "aux", "no", 0, 0),     \* ABI nop of 1 byte
+            V("sj", "arm64", "elf", "custom", "arg", "no", 0, 0),     \* ABI nop of 4 bytes
+            V("sj", "none", "elf", "custom", "arg", "no", 0, 0) >>    \* no nop known
     [] VariantSet = "items" ->
-         << V("sj", "x64", "elf", "default", "none", "n1", 0),
-            V("sj", "none", "elf", "custom", "arg", "n4", 0),
-            V("sj", "arm64", "elf", "custom", "aux", "no", 0) >>
+         << V("sj", "x64", "elf", "default", "none", "n1", 0, 1),
+            V("sj", "none", "elf", "custom", "arg", "n4", 0, 0),
+            V("sj", "arm64", "elf", "custom", "aux", "no", 0, 1),
+            V("sj", "x64", "elf", "default", "none", "n1", 0, 0) >>
     [] VariantSet = "align" ->
-         << V("sj", "x64", "elf", "default", "aux", "no", 0),
-            V("sj", "arm64", "elf", "default", "arg", "no", 1),
-            V("sj", "none", "elf", "custom", "arg", "n4", 2),
-            V("sj", "none", "elf", "custom", "arg", "no", 0),
-            V("sj", "x64", "elf", "custom", "aux", "e1", 3),
-            V("sj", "mips32", "elf", "default", "aux", "e4n1", 1),
-            V("sj", "x64", "pe", "default", "aux", "n1", 2) >>
+         << V("sj", "x64", "elf", "default", "aux", "no", 0, 0),
+            V("sj", "arm64", "elf", "default", "arg", "no", 1, 0),
+            V("sj", "none", "elf", "custom", "arg", "n4", 2, 0),
+            V("sj", "none", "elf", "custom", "arg", "no", 0, 0),
+            V("sj", "x64", "elf", "custom", "aux", "e1", 3, 0),
+            V("sj", "mips32", "elf", "default", "aux", "e4n1", 1, 1),
+            V("sj", "x64", "pe", "default", "aux", "n1", 2, 0) >>
     [] OTHER -> <<>>
 
 \* Rotate = 0: every variant; otherwise Rotate of them, chosen by the layout
@@ -599,6 +604,17 @@ Grow(g) ==
   /\ phase' = "grown"
   /\ UNCHANGED <<lay, nopk, exc>>
 
+\* a rewrite annotates the last interval
+Annotate ==
+  /\ phase = "split"
+  /\ Lates
+  /\ Len(cur.ivs) >= 2
+  /\ cur' = [cur EXCEPT !.items = Append(@, [t |-> "comments", kk |-> "bi", own |-> cur.ivs[Len(cur.ivs)].id,
+                                               d |-> 0, v |-> "late"])]
+  /\ mid' = cur'
+  /\ phase' = "grown"
+  /\ UNCHANGED <<lay, nopk, exc>>
+
 Join(kind) ==
   /\ phase \in {"split", "grown"}
   /\ LET r == JoinB(cur, NopBytes(kind), DefaultTables)
@@ -607,7 +623,7 @@ Join(kind) ==
   /\ phase' = IF phase = "split" THEN "joined" ELSE "joined_grown"
   /\ UNCHANGED <<lay, mid>>
 
-Next == Split \/ (\E g \in Grows : Grow(g)) \/ (\E k \in NopKinds : Join(k))
+Next == Split \/ (\E g \in Grows : Grow(g)) \/ Annotate \/ (\E k \in NopKinds : Join(k))
 Spec == Init /\ [][Next]_vars
 
 (***************************************************************************)
